@@ -17,7 +17,7 @@ Local Notation P := ZParr.
 Local Notation D := dflt_opts.
 """
 
-TARGETS = ["Props/P_C01.vo"]
+TARGETS = ["Gen/GenSource.vo", "Bridge/BridgeSrcC01.vo", "Props/P_C01.vo"]
 
 OPS = {"add": (operator.add, "EAdd"), "sub": (operator.sub, "ESub"), "mul": (operator.mul, "EMul")}
 NP_SPELL = {"add": numpy.add, "sub": numpy.subtract, "mul": numpy.multiply}
@@ -170,7 +170,8 @@ def has_pure_numeric_binop(tree, leaves):
 
 
 def run(report, tier, seed):
-    ok = core.prove(report, TARGETS)
+    from harness.translators import source_tr
+    ok = core.prove_tied(report, TARGETS, [source_tr])
     n = 1200 if tier == "quick" else 24000
     maxdepth = 4 if tier == "quick" else 5
     rng = core.rng_for(seed, "C01")
